@@ -78,6 +78,24 @@ class C07(MonitorCheck):
                     stack.extend(getattr(u, 'supertypes', ()) or ())
             for x in rec.c07:
                 v.setdefault(x['sig'], x)
+            # every constructor that new() was called on must still carry the class's
+            # DECLARED supertypes (a constructor reached through the result of an earlier
+            # substitution must not have kept the substituted ones)
+            tb = refrel.Table(run.program.bt_factory, class_decls(run.program))
+            for name, sups, caller in rec.receivers:
+                ci = tb.classes.get(name)
+                if ci is None or ci.builtin or len(ci.supers) != len(sups):
+                    continue
+                obl['receiver-is-definition'] = obl.get('receiver-is-definition', 0) + 1
+                if [refrel.strip(x) for x in sups] != [refrel.strip(x) for x in ci.supers]:
+                    sig = 'new-on-substituted-constructor|%s' % caller.split('<')[0]
+                    v.setdefault(sig, {
+                        'rule': 'new-on-substituted-constructor', 'sig': sig,
+                        'detail': '%s.new(..) was called on a constructor whose supertypes are '
+                                  '%s, the class declares %s (called from %s): the instantiation '
+                                  'inherits supertypes of an earlier substitution' % (
+                                      name, [tstr(x) for x in sups], [tstr(x) for x in ci.supers],
+                                      caller)})
         monitors.Recorder.current = None
         probes['postrun_instantiations'] = npost
         obl['postrun_new'] = npost
